@@ -1,5 +1,6 @@
 import Rivaas.Lemmas.LifecycleIndep
 import Rivaas.Lemmas.ReloadMutex
+import Rivaas.Model.LifecycleSkel
 /-
 C09 — Application lifecycle is ordered and shutdown is graceful. Property theorems.
 
@@ -364,6 +365,167 @@ theorem reload_and_stop_faults_leave_sequence_intact (sc : Scenario) (rounds' : 
         simp only [lemma_loop_rest sc rounds', lemma_loop_rest sc sc.rounds]
         simp only [shutdownSeq, Run.obs, lemma_tail_indep sc rounds' stops' hlen]
 
+
+/-! ### the call order in the source: obligations on every path of the regenerated skeletons
+
+The harness extracts the control-flow skeletons of `Start`, `StartTLS`, `StartMTLS` and `runServer` from
+the Go source on every run; the driver evaluates `LifecycleSkel.check` on them. What a passed check
+means for every valuation of the branch conditions: -/
+
+section skeletons
+open Rivaas.LifecycleSkel
+
+/-- every execution is one of the enumerated paths -/
+theorem exec_mem_outs (ρ : Nat → Bool) (s : Stmt) : exec ρ s ∈ outs s := by
+  induction s with
+  | call n q => simp [exec, outs]
+  | ret => simp [exec, outs]
+  | tail n => simp [exec, outs]
+  | goto l => simp [exec, outs]
+  | skip => simp [exec, outs]
+  | seq a b iha ihb =>
+    simp only [exec, outs, List.mem_flatMap]
+    refine ⟨exec ρ a, iha, ?_⟩
+    by_cases h : ((exec ρ a).fin == End.fall) = true
+    · simp only [h, if_true, List.mem_map]
+      exact ⟨exec ρ b, ihb, rfl⟩
+    · simp [h]
+  | ite c t e iht ihe =>
+    simp only [exec, outs, List.mem_append]
+    by_cases h : ρ c = true
+    · simp only [h, if_true]; exact Or.inl iht
+    · simp only [h, Bool.false_eq_true, if_false]; exact Or.inr ihe
+  | scope s ih =>
+    simp only [exec, outs, List.mem_map]
+    exact ⟨exec ρ s, ih, rfl⟩
+
+/-- a check that holds on all enumerated paths holds for every valuation of the branch conditions -/
+theorem onAll_sound (P : Out → Bool) (s : Stmt) (h : onAll P s = true) (ρ : Nat → Bool) :
+    P (exec ρ s) = true :=
+  List.all_eq_true.mp h _ (exec_mem_outs ρ s)
+
+
+
+/-- after the label, on every path: the four steps of the shutdown sequence, each exactly once, in the
+    order the lifecycle model follows, and only then the return — there is no early exit (K09c) -/
+theorem skel_after_every_path (l : Name) (s : Stmt) (h : onAll (afterOk l) s = true) (ρ : Nat → Bool) :
+    keep shutdownOrder (exec ρ s) = shutdownOrder ∧ (exec ρ s).fin = .ret := by
+  have := onAll_sound _ s h ρ
+  simp only [afterOk, Bool.and_eq_true, beq_iff_eq] at this
+  obtain ⟨⟨_, h2⟩, h3⟩ := this
+  refine ⟨?_, h2⟩
+  -- filtering with the smaller core is filtering the filtered list
+  have hsub : keep shutdownOrder (exec ρ s) =
+      (keep (nm "abortStartup" :: nm "Reload" :: nm "executeReadyHooks" :: nm "Listen" :: shutdownOrder)
+        (exec ρ s)).filter (fun n => shutdownOrder.contains n) := by
+    simp only [keep, List.filter_filter]
+    congr 1
+    funext n
+    simp only [List.contains_eq_mem]
+    by_cases hn : n ∈ shutdownOrder
+    · have : n ∈ nm "abortStartup" :: nm "Reload" :: nm "executeReadyHooks" :: nm "Listen" :: shutdownOrder :=
+        List.mem_cons_of_mem _ (List.mem_cons_of_mem _ (List.mem_cons_of_mem _ (List.mem_cons_of_mem _ hn)))
+      simp [hn, this]
+    · simp [hn]
+  rw [hsub, h3]
+  decide
+
+/-- entry points, on every path: once `startObservability` has been called the path either tail-calls
+    `runServer` after the whole prologue in order (and without `abortStartup`), or ends with
+    `abortStartup; return` — there is no exit that leaves observability running (K09b) -/
+theorem skel_entry_every_path (s : Stmt) (h : onAll entryOk s = true) (ρ : Nat → Bool)
+    (hs : (names (exec ρ s)).contains (nm "startObservability") = true) :
+    ((exec ρ s).fin = .tail (nm "runServer") ∧ keep (nm "abortStartup" :: prologue) (exec ρ s) = prologue) ∨
+    ((exec ρ s).fin = .ret ∧ (names (exec ρ s)).getLast? = some (nm "abortStartup")) := by
+  have := onAll_sound _ s h ρ
+  simp only [entryOk, hs, if_true] at this
+  cases hf : (exec ρ s).fin with
+  | fall => rw [hf] at this; cases this
+  | goto l => rw [hf] at this; cases this
+  | tail n =>
+    rw [hf] at this
+    simp only [Bool.and_eq_true, beq_iff_eq] at this
+    left; exact ⟨by rw [this.1], this.2⟩
+  | ret =>
+    rw [hf] at this
+    simp only [Bool.and_eq_true, beq_iff_eq] at this
+    right; exact ⟨rfl, this.1.1⟩
+
+/-- the event loop: an arm that returns has called `abortStartup` and nothing else of interest; an arm that
+    falls through goes back into the loop having at most reloaded; the only other way out is the `goto`
+    to the label after the loop — no arm "just returns" -/
+theorem skel_arm_every_path (l : Name) (s : Stmt) (h : onAll (armOk l) s = true) (ρ : Nat → Bool) :
+    match (exec ρ s).fin with
+    | .ret => keep loopCore (exec ρ s) = [nm "abortStartup"]
+    | .fall => keep loopCore (exec ρ s) = [nm "Reload"] ∨ keep loopCore (exec ρ s) = []
+    | .goto l' => l' = l ∧ keep loopCore (exec ρ s) = []
+    | .tail _ => False := by
+  have := onAll_sound _ s h ρ
+  simp only [armOk] at this
+  cases hf : (exec ρ s).fin with
+  | fall => rw [hf] at this; simpa using this
+  | goto l' => rw [hf] at this; simpa using this
+  | tail n => rw [hf] at this; cases this
+  | ret => rw [hf] at this; simpa using this
+
+/-! ### the skeletons of the source as it is now (what the harness extracts), and as it was shipped -/
+
+def c (s : String) : Stmt := .call (nm s) []
+def cq (s q : String) : Stmt := .call (nm s) (nm q)
+def bail : Stmt := .seq (c "abortStartup") .ret
+
+def skStart : Stmt :=
+  .seq (.seq (c "startObservability") (.ite 0 bail .skip))
+    (.seq (.seq (c "executeStartHooks") (.ite 1 bail .skip))
+      (.seq (c "registerOpenAPIEndpoints") (.seq (c "Freeze") (.tail (nm "runServer")))))
+
+def skStartMTLS : Stmt := .seq (.seq (c "validate") (.ite 2 .ret .skip)) skStart
+
+def skStartTLS : Stmt :=
+  .seq (.seq (c "startObservability") (.ite 0 bail .skip))
+    (.seq (.seq (c "executeStartHooks") (.ite 1 bail .skip))
+      (.seq (c "registerOpenAPIEndpoints") (.seq (c "Freeze")
+        (.seq (c "LoadX509KeyPair") (.seq (.ite 2 bail .skip) (.tail (nm "runServer")))))))
+
+def skPre : Stmt :=
+  .seq (c "Listen") (.seq (.ite 0 bail .skip) (.seq (c "go") (.seq (cq "recv" "serverReady") (c "executeReadyHooks"))))
+
+def skGo : Stmt :=
+  .seq (c "printStartupBanner") (.seq (c "flushStartupLogs") (.seq (c "logStartupInfo")
+    (.seq (cq "close" "serverReady") (.seq (cq "startFunc" "listener") (cq "Close" "listener")))))
+
+def skAfter : Stmt :=
+  .seq (cq "label" "shutdown") (.seq (c "executeShutdownHooks") (.seq (cq "Shutdown" "server")
+    (.seq (c "shutdownObservability") (.seq (c "executeStopHooks") .ret))))
+
+def skNow : Skels :=
+  { entries := [skStart, skStartTLS, skStartMTLS], pre := skPre, go := skGo,
+    arms := [bail, c "Reload", .goto (nm "shutdown")], after := skAfter }
+
+/-- the obligations are met by the source as it is now (the harness re-extracts and re-checks on every run) -/
+theorem skel_now_ok : (check skNow).ok = true := by decide
+
+/-- as shipped: a failing OnStart hook returned without `abortStartup` (K09b) -/
+def skStartAsShipped : Stmt :=
+  .seq (.seq (c "startObservability") (.ite 0 .ret .skip))
+    (.seq (.seq (c "executeStartHooks") (.ite 1 .ret .skip))
+      (.seq (c "registerOpenAPIEndpoints") (.seq (c "Freeze") (.tail (nm "runServer")))))
+
+/-- as shipped: `if err := server.Shutdown(ctx); err != nil { return … }` (K09c) -/
+def skAfterAsShipped : Stmt :=
+  .seq (cq "label" "shutdown") (.seq (c "executeShutdownHooks") (.seq (cq "Shutdown" "server")
+    (.seq (.ite 0 .ret .skip) (.seq (c "shutdownObservability") (.seq (c "executeStopHooks") .ret)))))
+
+theorem skel_asis_rejected :
+    onAll entryOk skStartAsShipped = false ∧ onAll (afterOk (nm "shutdown")) skAfterAsShipped = false ∧
+    -- a `return` added to the SIGHUP arm of the event loop
+    onAll (armOk (nm "shutdown")) (.seq (c "Reload") (.ite 0 .ret .skip)) = false ∧
+    -- OnReady dispatched before the listener is bound
+    onAll preOk (.seq (c "go") (.seq (cq "recv" "serverReady") (.seq (c "executeReadyHooks") (c "Listen")))) = false := by
+  decide
+
+
+end skeletons
 
 /-! ### non-vacuity: the hypotheses above are met by non-trivial scenarios, the conclusions say something -/
 
